@@ -420,6 +420,9 @@ def gamma_recurrence(ctx, rule="R03.7"):
 
 
 def run(ctx):
+    from .C14 import no_subclass_caches
+
+    no_subclass_caches(ctx, rule="R03.10")
     from .C12 import inverse_pairs
 
     inverse_pairs(ctx, rule="R03.9")  # the *_spatial variants evaluate the isotropic functions at the isometrized lag: same matrices and order as isometrize (shared with C12)
